@@ -102,14 +102,14 @@ func init() {
 		Entry{Name: "tkn20.AttributeKey.Decrypt", Group: "tkn20", Cost: 8, NValid: nAll, LenFields: lf,
 			Call:  func(b []byte) { _, _ = ak.Decrypt(b) },
 			Valid: validCt},
-		Entry{Name: "tkn20.Attributes.CouldDecrypt", Group: "tkn20", Cost: 2, NValid: nAll, LenFields: lf,
+		Entry{Name: "tkn20.Attributes.CouldDecrypt", Group: "tkn20", Cost: 4, NValid: nAll, LenFields: lf,
 			Call:  func(b []byte) { _ = attrs.CouldDecrypt(b) },
 			Valid: validCt},
-		Entry{Name: "tkn20.Policy.ExtractFromCiphertext", Group: "tkn20", NValid: nAll, LenFields: lf,
+		Entry{Name: "tkn20.Policy.ExtractFromCiphertext", Group: "tkn20", Cost: 2, NValid: nAll, LenFields: lf,
 			Call:  func(b []byte) { var p tkn20.Policy; _ = p.ExtractFromCiphertext(b) },
 			Valid: validCt},
 		// follow-on use of a policy that ExtractFromCiphertext accepted
-		Entry{Name: "tkn20.Policy.ExtractFromCiphertext+use", Group: "tkn20", NValid: nAll, LenFields: lf,
+		Entry{Name: "tkn20.Policy.ExtractFromCiphertext+use", Group: "tkn20", Cost: 4, NValid: nAll, LenFields: lf,
 			Call: func(b []byte) {
 				var p, q tkn20.Policy
 				if p.ExtractFromCiphertext(b) == nil {
@@ -144,19 +144,42 @@ func init() {
 	if err := polA.FromString(tknPolicyStrings[0]); err != nil {
 		panic(err)
 	}
-	for _, n := range []string{"tkn20.PublicKey.UnmarshalBinary", "tkn20.PublicKey.UnmarshalBinary+Encrypt", "tkn20.SystemSecretKey.UnmarshalBinary",
+	for _, n := range []string{"tkn20.PublicKey.UnmarshalBinary+Equal", "tkn20.SystemSecretKey.UnmarshalBinary+Equal", "tkn20.AttributeKey.UnmarshalBinary+Equal", "tkn20.PublicKey.UnmarshalBinary", "tkn20.PublicKey.UnmarshalBinary+Encrypt", "tkn20.SystemSecretKey.UnmarshalBinary",
 		"tkn20.SystemSecretKey.UnmarshalBinary+KeyGen", "tkn20.AttributeKey.UnmarshalBinary", "tkn20.AttributeKey.UnmarshalBinary+Decrypt"} {
 		leStructured[n] = true
 	}
 	Register(
-		Entry{Name: "tkn20.PublicKey.UnmarshalBinary", Group: "tkn20", LenFields: [][2]int{{0, 1}, {1, 1}},
+		Entry{Name: "tkn20.PublicKey.UnmarshalBinary+Equal", Group: "tkn20", Cost: 2, LenFields: [][2]int{{0, 1}, {1, 1}},
+			Call: func(b []byte) {
+				var k tkn20.PublicKey
+				if k.UnmarshalBinary(b) == nil {
+					_, _ = k.Equal(&pk), pk.Equal(&k)
+				}
+			},
+			Valid: func(int) []byte { return pkb }},
+		Entry{Name: "tkn20.SystemSecretKey.UnmarshalBinary+Equal", Group: "tkn20", LenFields: [][2]int{{0, 1}, {1, 1}},
+			Call: func(b []byte) {
+				var k tkn20.SystemSecretKey
+				if k.UnmarshalBinary(b) == nil {
+					_, _ = k.Equal(&msk), msk.Equal(&k)
+				}
+			},
+			Valid: func(int) []byte { return mskb }},
+		Entry{Name: "tkn20.AttributeKey.UnmarshalBinary+Equal", Group: "tkn20", Cost: 2, LenFields: [][2]int{{0, 1}, {1, 1}, {2, 1}},
+			Call: func(b []byte) {
+				var k tkn20.AttributeKey
+				if k.UnmarshalBinary(b) == nil {
+					_, _ = k.Equal(&ak), ak.Equal(&k)
+				}
+			},
+			Valid: func(int) []byte { return akb }},
+		Entry{Name: "tkn20.PublicKey.UnmarshalBinary", Group: "tkn20", Cost: 2, LenFields: [][2]int{{0, 1}, {1, 1}},
 			Call:  func(b []byte) { var k tkn20.PublicKey; _ = k.UnmarshalBinary(b) },
 			Valid: func(int) []byte { return pkb }},
 		Entry{Name: "tkn20.PublicKey.UnmarshalBinary+Encrypt", Group: "tkn20", Cost: 8, LenFields: [][2]int{{0, 1}, {1, 1}},
 			Call: func(b []byte) {
 				var k tkn20.PublicKey
 				if k.UnmarshalBinary(b) == nil {
-					_ = k.Equal(&pk)
 					_, _ = k.MarshalBinary()
 					_, _ = k.Encrypt(vlib.NewReader(120), polA, []byte("m"))
 				}
@@ -165,24 +188,22 @@ func init() {
 		Entry{Name: "tkn20.SystemSecretKey.UnmarshalBinary", Group: "tkn20", LenFields: [][2]int{{0, 1}, {1, 1}},
 			Call:  func(b []byte) { var k tkn20.SystemSecretKey; _ = k.UnmarshalBinary(b) },
 			Valid: func(int) []byte { return mskb }},
-		Entry{Name: "tkn20.SystemSecretKey.UnmarshalBinary+KeyGen", Group: "tkn20", Cost: 8, LenFields: [][2]int{{0, 1}, {1, 1}},
+		Entry{Name: "tkn20.SystemSecretKey.UnmarshalBinary+KeyGen", Group: "tkn20", Cost: 16, LenFields: [][2]int{{0, 1}, {1, 1}},
 			Call: func(b []byte) {
 				var k tkn20.SystemSecretKey
 				if k.UnmarshalBinary(b) == nil {
-					_ = k.Equal(&msk)
 					_, _ = k.MarshalBinary()
 					_, _ = k.KeyGen(vlib.NewReader(121), attrs)
 				}
 			},
 			Valid: func(int) []byte { return mskb }},
-		Entry{Name: "tkn20.AttributeKey.UnmarshalBinary", Group: "tkn20", LenFields: [][2]int{{0, 1}, {1, 1}, {2, 1}},
+		Entry{Name: "tkn20.AttributeKey.UnmarshalBinary", Group: "tkn20", Cost: 2, LenFields: [][2]int{{0, 1}, {1, 1}, {2, 1}},
 			Call:  func(b []byte) { var k tkn20.AttributeKey; _ = k.UnmarshalBinary(b) },
 			Valid: func(int) []byte { return akb }},
 		Entry{Name: "tkn20.AttributeKey.UnmarshalBinary+Decrypt", Group: "tkn20", Cost: 8, LenFields: [][2]int{{0, 1}, {1, 1}, {2, 1}},
 			Call: func(b []byte) {
 				var k tkn20.AttributeKey
 				if k.UnmarshalBinary(b) == nil {
-					_ = k.Equal(&ak)
 					_, _ = k.MarshalBinary()
 					_, _ = k.Decrypt(cts[1])
 				}
